@@ -150,7 +150,8 @@ pub fn run(rng: &mut Rng, tier: &str, out: &str) -> Report {
     let n_files = if thorough { 200 } else { 24 };
     for fi in 0..n_files {
         let enc = ENCODINGS[fi % 4];
-        let w = write_file(rng, enc, rng.range(2, 5) as usize, fi % 3 != 0);
+        let nch = rng.range(2, 5) as usize;
+        let w = write_file(rng, enc, nch, fi % 3 != 0);
         let spans = chunk_spans(&w.file);
         let bounds: Vec<usize> = spans.iter().map(|s| s.1).collect();
         rep.add("c13_chunks", spans.len() as u64);
@@ -241,7 +242,8 @@ pub fn run(rng: &mut Rng, tier: &str, out: &str) -> Report {
     let n_c14 = if thorough { 60 } else { 6 };
     for fi in 0..n_c14 {
         let enc = ENCODINGS[fi % 4];
-        let mut w = write_file(rng, enc, rng.range(1, 3) as usize, fi % 2 == 0);
+        let nch = rng.range(1, 3) as usize;
+        let mut w = write_file(rng, enc, nch, fi % 2 == 0);
         let mut targets: Vec<(String, Vec<u8>)> = vec![("save+incremental".into(), w.file.clone())];
         // a bundle and the (possibly compressed) bytes of the largest change
         let changes = w.writer.get_changes(&[]);
@@ -289,7 +291,8 @@ pub fn run(rng: &mut Rng, tier: &str, out: &str) -> Report {
     let n_rt = if thorough { 600 } else { 60 };
     for ri in 0..n_rt {
         let enc = ENCODINGS[ri % 4];
-        let mut w = write_file(rng, enc, rng.range(1, 4) as usize, true);
+        let nch = rng.range(1, 4) as usize;
+        let mut w = write_file(rng, enc, nch, true);
         // optionally hold an orphan: a change whose dependency is withheld
         let mut side = w.writer.fork().with_actor(gen::actor(rng, 7));
         let cfg = GenCfg::default();
